@@ -105,6 +105,10 @@ int main(int argc, char ** argv)
     th.emplace_back([] { generator_body(1, false, "K42", 0, 0, false); });
     th.emplace_back([] { generator_body(2, false, "Cs137+Ba137m", 0, 0, false); });
     th.emplace_back([] { generator_body(3, false, "Y90", 0, 0, false); });
+    th.emplace_back([] { generator_body(4, false, "K40", 0, 0, false); });   // forbidden-unique shapes (beta2)
+    th.emplace_back([] { generator_body(5, false, "Kr85", 0, 0, false); });
+    th.emplace_back([] { generator_body(6, false, "Eu152", 0, 0, false); }); // beta1 shapes, conversion cascades
+    th.emplace_back([] { generator_body(7, false, "Cd113", 0, 0, false); });
     for (auto & t : th) t.join();
   } else if (group == 3) {
     // the first gA initialisations, concurrently
@@ -176,6 +180,11 @@ int main(int argc, char ** argv)
     th.emplace_back([] { generator_body(9, false, "K42", 0, 0, false); });
     th.emplace_back([] { generator_body(10, false, "Cs137+Ba137m", 0, 0, false); });
     th.emplace_back([] { generator_body(11, false, "Ar39", 0, 0, false); });
+    th.emplace_back([] { generator_body(15, false, "K40", 0, 0, false); });         // every family of beta-shape routines from two threads
+    th.emplace_back([] { generator_body(16, false, "Kr85", 0, 0, false); });
+    th.emplace_back([] { generator_body(17, false, "Rb87", 0, 0, false); });
+    th.emplace_back([] { generator_body(18, false, "Eu152", 0, 0, false); });
+    th.emplace_back([] { generator_body(19, false, "Bi214+Po214", 0, 0, false); });
     th.emplace_back([] { generator_body(12, false, "Co60", 0, 0, false, 5.0); });   // each with its own direction lock
     th.emplace_back([] { generator_body(13, false, "Co60", 0, 0, false, 60.0); });
     th.emplace_back([] { generator_body(14, true, "Mo100", 0, 1, false, 20.0); });
